@@ -360,6 +360,7 @@ pub fn run(cfg: Config, programs: Vec<Program>) -> Outcome {
             .stack_size(1 << 20)
             .spawn(move || {
                 TID.with(|c| c.set(Some(t)));
+                crate::env::set_sim_thread(true);
                 let result = std::panic::catch_unwind(std::panic::AssertUnwindSafe(|| {
                     // Wait to be scheduled for the first time.
                     {
@@ -412,6 +413,7 @@ pub fn run(cfg: Config, programs: Vec<Program>) -> Outcome {
                     CV.notify_all();
                 }
                 TID.with(|c| c.set(None));
+                crate::env::set_sim_thread(false);
                 info
             })
             .expect("spawn sim thread");
